@@ -36,6 +36,7 @@ CHUNK = 2
 N_KINDS = 16
 GEN_TAKES_INDEX = True
 N_CATALOGUE = 48
+REACH = ['mode:catalogue', 'mode:random', 'mode:insertion', 'fault_fired:module.body', 'fault_fired:tc.decorate', 'fault_fired:stdout.write', 'fault_fired:node.flatten', 'inserted_inside_live_context']  # counters (prefixes) that a healthy batch makes non-zero; gaps are reported in the evidence
 BUDGET = {"quick": 45, "thorough": 600}
 RULE = (
     "Catalogue mode (run index < 48): one catalogue operation (array check on duck arrays at top level / "
